@@ -71,6 +71,7 @@ def run(R, tier, seed, driver_ok):
     R.assumptions = ['SciPy L-BFGS-B is external: "never worse than x0" is checked per fit', 'finite differences with h=1e-6 (relative tolerance 1e-4)']
     lines, meta = [], []
     clines, cmeta = [], []
+    glines, gmeta = [], []
     for rep in range(reps):
         d = int(rng.randint(2, 5))
         X, y = zoo.blobs(rng, d, int(rng.randint(2, 4)))
@@ -136,6 +137,11 @@ def run(R, tier, seed, driver_ok):
                 ys = ' '.join(map(str, yy.tolist())) if name == 'NCA' else bits(yy)
                 lines.append(f'{op} {Lr.shape[0]} {d} {n} {bits(Lr)} {bits(X)} {ys}')
                 meta.append((val, 1e-9 * max(1.0, abs(val)), op, c2))
+                # the gradient: the model's transcription of the code's W_sym route (C10_nca_gradient / C10_mlkr_gradient prove
+                # it to be the derivative of the documented objective) against the array handed to L-BFGS
+                gop = 'nca_grad' if name == 'NCA' else 'mlkr_grad'
+                glines.append(f'{gop} {Lr.shape[0]} {d} {n} {bits(Lr)} {bits(X)} {ys}')
+                gmeta.append((grad.copy(), gop, c2))
         # ------------------------------------------------------------ LMNN
         kk = int(rng.choice([1, 2, 2, 3, 3]))
         kk = min(kk, int(np.bincount(y).min()) - 1)
@@ -214,6 +220,9 @@ def run(R, tier, seed, driver_ok):
             EL = ((Lc.dot(X.T).T[:, None] - Lc.dot(X.T).T[None]) ** 2).sum(-1)
             hinge = np.array([1 + EL[i, j] - EL[i, l] for i in range(n) for j in targets[i] for l in range(n) if y[l] != y[i]])
             near_kink = bool(hinge.size and np.abs(hinge).min() < 1e-9 * max(1.0, np.abs(EL).max()))
+            if not near_kink:
+                glines.append(f'lmnn_grad {Lc.shape[0]} {d} {n} {bits(Lc)} {bits(X)} {" ".join(map(str, y.tolist()))} {f2b(reg)} {kk} ' + ' '.join(map(str, targets.ravel().tolist())))
+                gmeta.append((Gc.copy(), 'lmnn_grad', c2))
             clines.append(f'lmnn_code_obj {Lc.shape[0]} {d} {n} {bits(Lc)} {bits(X)} {" ".join(map(str, y.tolist()))} {f2b(reg)} {kk} ' + ' '.join(map(str, targets.ravel().tolist())))
             cmeta.append((objc, nact, near_kink, c2))
     if driver_ok and lines:
@@ -232,8 +241,25 @@ def run(R, tier, seed, driver_ok):
                 R.broken('correspondence:C10:lmnn_code_obj', f'code-level model of _loss_grad gives {v}, the implementation {val}', case)
             elif int(tk[2]) != nact and not near_kink:
                 R.broken('correspondence:C10:lmnn_total_active', f'code-level model counts {tk[2]} active constraints, the implementation {nact}', case)
+        outs = lean_run(glines)
+        worst = 0.0
+        for o, (G, what, case) in zip(outs, gmeta):
+            v = parse_ok_floats(o)
+            # entries are sums of at most n² (n²·k for LMNN) terms of size ≤ |L|·|x − x'|²: near a stationary point the gradient
+            # is far smaller than its summands, so the rounding floor is relative to the summands, not to the result
+            Lc_, Xc_ = np.asarray(case['L']), np.asarray(case['X'])
+            floor = 1e-3 * float(np.abs(Lc_).max()) * float(np.ptp(Xc_, axis=0).max()) ** 2 * len(Xc_)
+            scale = max(1e-300, float(np.abs(G).max()), floor)
+            if v is None or v.size != G.size or not np.all(np.isfinite(v)):
+                R.broken(f'driver:{what}', f'model driver answered {o[:80]}', case); continue
+            err = float(np.abs(v.reshape(G.shape) - G).max()) / scale
+            worst = max(worst, err)
+            if err > 1e-9:
+                R.broken(f'correspondence:C10:{what}', f'gradient of the model (code route, proved to be the derivative) differs from the gradient that drives the optimiser: relative max difference {err:.3g}', case)
+        R.count('gradient_traces', len(glines))
+        R.extra['gradient_worst_relative_difference'] = worst
         R.count('lmnn_code_obj_traces', len(clines))
-        R.extra['traces_validated_against_impl'] = len(lines) + len(clines)
+        R.extra['traces_validated_against_impl'] = len(lines) + len(clines) + len(glines)
 
 
 def replay(R, obj):
